@@ -11,6 +11,7 @@ import re
 
 from .. import envmode
 from ..kernel import Violation, canon
+from ..kernel import quiet_print as _quiet_print
 from ..gen import AA, gen_seq, CLASSES
 from ..minimise import list_candidates
 
@@ -288,7 +289,7 @@ def execute(plan, ctx):
     import localcider.sequenceParameters as spmod
     from localcider.sequenceParameters import SequenceParameters
     envmode.apply(plan.get("env"), ctx)
-    spmod.print = lambda *a, **k: None
+    spmod.print = _quiet_print
     if plan.get("noise") is not None:
         from ..noise import noise_prelude
         noise_prelude(ctx, plan["noise"])
